@@ -93,6 +93,16 @@ def lazy_record(k, period, width):
 
 def unbounded_leg(ns, res, rng, count):
     """Streaming bounded queries over an unbounded generator with a hard read budget."""
+    from ..js import bridge
+    node = bridge.Node.start()
+    try:
+        _unbounded_leg(ns, res, rng, count, node)
+    finally:
+        if node is not None:
+            node.close()
+
+
+def _unbounded_leg(ns, res, rng, count, node):
     for _ in range(count):
         period = rng.choice([2, 3, 5, 7])
         width = rng.choice([1, 2, 3])
@@ -133,6 +143,20 @@ def unbounded_leg(ns, res, rng, count):
                 res.violation('py:rows-differ-unbounded:' + common.feature_sig(qn), '[py] %s over unbounded input -> %r, reference %r' % (qtext, o.rows, ref.rows), case)
             if res.counters.get('unbounded_runs', 0) % 37 == 1:
                 res.sample({'unbounded_query': qtext, 'reads': o.a_reads, 'budget': ref.a_reads_max, 'rows': o.rows})
+            # JS twin: the same bounded query over an endless Proxy array with the same budget
+            if node is not None and common.neutral_query(qn):
+                qjs = qast.render(qn, qast.Ctx(None, None), 'js')
+                oj = node.call({'op': 'query_unbounded', 'query': qjs, 'period': period, 'width': width, 'budget': ref.a_reads_max, 'join': B})
+                res.evaluations += 1
+                res.count('js_unbounded_runs')
+                casej = dict(case, query_text_js=qjs, engine='js')
+                if oj['error'] is not None:
+                    mech = 'kept-pulling-input' if 'ReadBudgetExceeded' in oj['error']['msg'] else 'unbounded-error'
+                    res.violation('js:%s:%s' % (mech, common.feature_sig(qn)), '[js] bounded streaming query over unbounded input: %s after %d reads, budget p_(n+1)=%d | %s' % (oj['error']['msg'][:120], oj['reads'], ref.a_reads_max, qjs), casej)
+                elif not refsem.same_rows(oj['out'], ref.rows):
+                    res.violation('js:rows-differ-unbounded:' + common.feature_sig(qn), '[js] %s over unbounded input -> %r, reference %r' % (qjs, oj['out'], ref.rows), casej)
+                else:
+                    res.count('js_reads_within_budget')
 
 
 def plan(tier, seed):
@@ -190,7 +214,7 @@ def summarize(tier, seed, m):
     shapes = sorted(k[6:] for k in m['counters'] if k.startswith('shape:'))
     return {
         'rule': 'base queries over tables with many duplicate keys: ORDER BY 1-2 keys (str / int / len / mixed) x ASC/DESC x {none, DISTINCT, DISTINCT COUNT} x {WHERE, JOIN, UNNEST}; for each base every bound n in 0..|out|+1 (TOP and LIMIT) is executed and compared with the prefix of the unbounded run and with the reference; ASC/DESC pairs compared as exact reverses; streaming bounded queries are run over an unbounded lazy input with a read budget equal to the position of the record producing output n+1. distinct_nontrivial = distinct bases with more than one output row + distinct unbounded runs.',
-        'required': ['py_cases', 'bound_runs', 'asc_desc_pairs', 'unbounded_runs', 'reads_within_budget', 'js_cases'],
+        'required': ['py_cases', 'bound_runs', 'asc_desc_pairs', 'unbounded_runs', 'reads_within_budget', 'js_cases', 'js_unbounded_runs', 'js_reads_within_budget'],
         'extra': {'shapes_seen': shapes},
         'assumptions': ['termination clause restated as bounded progress: reads <= position of the record producing output n+1; inputs on which output n+1 never exists are not used'],
     }
